@@ -30,9 +30,11 @@ def start(pid, tier, sc):
     n = len(names) + (1 if pid in GEN_FOR else 0)
     pool = cf.ThreadPoolExecutor(max(1, n))
     w = max(2, vlib.NCPU // max(1, n))
+    # (without -coverage: TLC's expression-level statistics need more than 14 GB on this model, in exhaustive
+    # and in simulation mode alike; that every monitor rule is exercised is checked on the real traces)
     futs = [(nm, CFGS[nm][0 if tier == "quick" else 1],
              pool.submit(vlib.tlc, "IvCore.tla", CFGS[nm][0 if tier == "quick" else 1], sc, workers=w,
-                         timeout=900 if tier == "quick" else 2400, coverage=True, xmx="14g")) for nm in names]
+                         timeout=900 if tier == "quick" else 2400, xmx="10g")) for nm in names]
     gen = None
     if pid in GEN_FOR:
         gen = pool.submit(vlib.tlc, "IvCore.tla", GEN[tier], sc, workers=w, timeout=300 if tier == "quick" else 1500)
